@@ -1,0 +1,95 @@
+/*
+ *  Verification hooks (only compiled with cargo feature `verif`)
+ *
+ *  This module only re-exports crate private items and adds thin wrappers so that an
+ *  external test harness can drive the real core, the real JSON persistence and the real
+ *  protocol handler in process. It does not change any behaviour.
+ */
+
+pub use crate::auth::{JwtClaims, Privileges, get_claims, pattern_matches};
+pub use crate::leader_follower::{ClientWriteCommand, LeaderSyncMessage, StateSync};
+pub use crate::persistence::error::{PersistenceError, PersistenceResult};
+pub use crate::server::common::protocol::Proto;
+pub use crate::store::{PersistedStore, StoreNode};
+pub use crate::worterbuch::{PStateAggregator, Worterbuch};
+
+use crate::Config;
+use std::cell::RefCell;
+use worterbuch_common::{GraveGoods, LastWill};
+
+/// flush the JSON persistence of the given core synchronously (what the shutdown sequence does)
+pub async fn json_flush(worterbuch: &mut Worterbuch, config: &Config) -> PersistenceResult<()> {
+    crate::persistence::verif_json_synchronous(worterbuch, config).await
+}
+
+/// load a core from the JSON persistence files in `config.data_dir` (v3, then v2, then v1)
+pub async fn json_load(config: &Config) -> PersistenceResult<Worterbuch> {
+    crate::persistence::verif_json_load(config).await
+}
+
+pub fn unlock_persistence() {
+    crate::persistence::unlock_persistence();
+}
+
+pub fn is_persistence_locked() -> bool {
+    crate::persistence::is_persistence_locked()
+}
+
+pub async fn apply_grave_goods(worterbuch: &mut Worterbuch, grave_goods: GraveGoods) {
+    worterbuch.apply_grave_goods(grave_goods).await
+}
+
+pub async fn apply_last_wills(worterbuch: &mut Worterbuch, last_wills: LastWill) {
+    worterbuch.apply_last_wills(last_wills).await
+}
+
+pub async fn apply_all_grave_goods_and_last_wills(worterbuch: &mut Worterbuch) {
+    worterbuch.apply_all_grave_goods_and_last_wills().await
+}
+
+thread_local! {
+    static ARMED: RefCell<Option<(String, usize)>> = const { RefCell::new(None) };
+    static TRACE: RefCell<Vec<String>> = const { RefCell::new(Vec::new()) };
+}
+
+/// Arm a crash point for the current thread: the `nth` (0-based) time the point `name` is
+/// passed, `crash_point` returns an error, which makes the persistence code return early -
+/// the in-process equivalent of the process dying between two file operations.
+pub fn arm_crash_point(name: &str, nth: usize) {
+    ARMED.with(|a| *a.borrow_mut() = Some((name.to_owned(), nth)));
+}
+
+pub fn disarm_crash_point() {
+    ARMED.with(|a| *a.borrow_mut() = None);
+}
+
+/// take (and clear) the list of crash points passed on this thread
+pub fn take_crash_trace() -> Vec<String> {
+    TRACE.with(|t| std::mem::take(&mut *t.borrow_mut()))
+}
+
+pub(crate) fn crash_point(name: &str) -> PersistenceResult<()> {
+    TRACE.with(|t| t.borrow_mut().push(name.to_owned()));
+    let fire = ARMED.with(|a| {
+        let mut a = a.borrow_mut();
+        match a.as_mut() {
+            Some((n, nth)) if n == name => {
+                if *nth == 0 {
+                    *a = None;
+                    true
+                } else {
+                    *nth -= 1;
+                    false
+                }
+            }
+            _ => false,
+        }
+    });
+    if fire {
+        Err(PersistenceError::IoError(std::io::Error::other(format!(
+            "verif: simulated crash at {name}"
+        ))))
+    } else {
+        Ok(())
+    }
+}
